@@ -3,7 +3,7 @@
 import json, os, re
 ROOT = os.path.dirname(os.path.dirname(os.path.abspath(__file__)))
 rows = []
-for d in sorted(os.listdir(os.path.join(ROOT, "seeded"))):
+for d in sorted(os.listdir(os.path.join(ROOT, "seeded")), key=lambda x: (x.split("-m")[0], int(x.split("-m")[1]))):
     meta = json.load(open(os.path.join(ROOT, "seeded", d, "meta.json")))
     notes = [x.strip() for x in open(os.path.join(ROOT, "seeded", d, "notes.md")).read().splitlines() if x.strip()]
     title = re.sub(r"^[#\s]*", "", notes[0])[:120].replace("|", "/")
@@ -17,14 +17,15 @@ out = ["# Sensitivity of the checks: seeded regressions", "",
        "  20 more in a second round (two further regressions per property, asked for rarer triggers and told only the one-line titles of",
        "  the first round's regressions), 20 more in a third round (asked for regressions",
        "  made of two cooperating changes or depending on state left by earlier calls), 20 more in a fourth round (capacity / boundary",
-       "  paths of data structures, rarely used entry points and argument combinations, arithmetic slips). Each agent saw only the text of one property and its own git worktree of `/repo`; nothing from",
+       "  paths of data structures, rarely used entry points and argument combinations, arithmetic slips), 20 more in a fifth round (error and cleanup",
+       "  paths, interplay of two features, second element / object / call of a kind). Each agent saw only the text of one property and its own git worktree of `/repo`; nothing from",
        "  `/verif`. Every regression compiles, passes the repository's 48 tests and comes with a demonstration that passes without and",
        "  fails with the change; all three facts were re-confirmed with `tools/verify_seeded.sh` before the regression was kept.",
        "* **own mutants** - quick plausibility mutants from the lists in DESIGN.md section 7 (not kept as files; listed below).", "",
        "`tools/mutant.sh <patch> <ID>` runs the quick tier of a check against a patched scratch copy (`VERIF_REPO`); `tools/record_seeded.py`",
        "folds the logs (`tools/logs/`) into `seeded/*/meta.json`, from which this file is generated (`tools/gen_sensitivity.py`).", "",
        "## Seeded regressions (sub-agents)", "",
-       "m1, m2: first round; m3, m4: second round (rarer triggers); m5, m6: third round (cooperating changes, state / order dependence); m7, m8: fourth round (capacity / boundary paths, rarely used entry points, arithmetic slips).", "",
+       "m1, m2: first round; m3, m4: second round (rarer triggers); m5, m6: third round (cooperating changes, state / order dependence); m7, m8: fourth round (capacity / boundary paths, rarely used entry points, arithmetic slips); m9, m10: fifth round (error / cleanup paths, interplay of two features, second element / object / call).", "",
        "| id | what it breaks (one line) | checks as they were when it arrived | after strengthening | cases until the verdict |",
        "|----|---------------------------|-------------------------------------|---------------------|-------------------------|"]
 for d, title, meta in rows:
@@ -42,13 +43,20 @@ for d, title, meta in rows:
     out.append("| %s | %s | %s | %s | %s |" % (d, title, f, l, cases))
 out += ["", "%d of the %d were caught by the checks as they were when the regression arrived. Every miss pointed at a shape the generator did" % (first_caught, n),
         "not reach or an observation the oracle did not make; each was closed by widening the generator or the oracle (never by raising",
-        "case counts), after which all are caught - with four exceptions that are explained in their `meta.json`:", "",
+        "case counts), after which all are caught - with eight exceptions that are explained in their `meta.json`:", "",
         "* **C12-m4** (a callback switches off the process-wide file restrictions) is outside what C12 quantifies over; it is caught by C16.",
         "* **C09-m6** is obsolete for the same reason as C16-m4: the scenario written to catch it exposed a genuine defect (fix 8fa01c8), and with",
         "  the repair the mutated line is dead code.",
         "* **C17-m8** (the extended getter no longer drops a trailing blank-only continuation line) is outside the generated domain: a",
         "  blank-only line directly after an entry is excluded from the conventional grammar on purpose (DESIGN 5.1 note (a): the reader takes it as",
         "  a continuation line, which is debatable), so what the extended getter reports for it is not judged.",
+        "* **C01-m10** (a dangling main-file link in a higher layer ends the search): what a dangling link means for the lookup is not stated",
+        "  by C01 (it names empty files and links to /dev/null); the generator does not produce one and the model has no opinion.",
+        "* **C15-m9** (a failed read frees the caller's options object and sets the handle to NULL): allowed by C20's out-pointer rule; that",
+        "  a retry through the now-NULL handle reads without the options is a consequence the properties do not rule out.",
+        "* **C16-m9** (when a file violates two rules the later rule's code is returned): C16 demands *a* specific code of a violated rule, not a",
+        "  precedence between them; the check accepts either.",
+        "* **C19-m10** (a blank-only continuation line in the middle of a value ends the tool's listing of it): same excluded shape as C17-m8.",
         "* **C16-m4** (restrictions evaluated on the realpath-resolved name for relative paths) is obsolete: extending C16 to relative",
         "  paths in order to catch it exposed the underlying behaviour as a genuine defect of the library (fix 39c4358); after the repair the",
         "  mutation is behaviour-preserving.", "",
@@ -105,7 +113,24 @@ out += ["", "%d of the %d were caught by the checks as they were when the regres
         "| C18-m7 | `strtok` in the option list parser: failures were found but never replayed (schedule is not part of the case) | C18 replays a case up to 8 times and reports it when two replays fail (`racy_replays`) |",
         "| C18-m8 | process-wide initial capacity raced by object growth and creation, saturates after the first growth | 6 of C18's 16 shards fork every case from a process that never ran one; half of the cases run the concurrent phase before the serial reference; new operation: 9+ new keys at once |",
         "| C19-m8 | empty `--delimiters` keeps the default | empty delimiter string (`--delimiters=`, `-d ''`) as seventh delimiter choice; exposed genuine defect RC21 (fix d7ec9de) |",
-        "| C04-m7 | group list growth forgets the terminator at 8, 16, ... groups (1 pointer, invisible without ASan) | 4% of the grammar's files are \"many sections\" files (>= 8 distinct sections in 0.6% of all files) - C02, C04 and every other user of the grammar |", "",
+        "| C04-m7 | group list growth forgets the terminator at 8, 16, ... groups (1 pointer, invisible without ASan) | 4% of the grammar's files are \"many sections\" files (>= 8 distinct sections in 0.6% of all files) - C02, C04 and every other user of the grammar |",
+        "| C02-m9 | `econf_getStringValue` returns success for a key without value but leaves the out-pointer untouched (stale value of the caller) | `observe()` hands in recognisably stale out-parameters for listings and values; a success that did not write them is an error (all properties that observe an object) |",
+        "| C03-m10 | static cache of the last copied section name across merges: the second merge of a process is wrong | C03 merges every pair a second time (and the reverse pair in between) and compares the two results |",
+        "| C05-m10 | reading through the result object of an earlier read collapses the comment set to its first character | C05 reloads 20% of its files through the object of the first layered read |",
+        "| C06-m9 | zero-size regular files skip the caller's check | half of C06's empty files stay empty (no decoy content) |",
+        "| C06-m10 | drop-in path kept in a static buffer: a callback that reads a configuration itself redirects the outer read | in 12% of C06's cases the callback reads a side tree with drop-ins through the library |",
+        "| C08-m9 | section names compared by djb2 hash (`ab` == `bA`) | the two colliding names are section names of C08's file round trip and of the histories (C07, C10, C11, C20) |",
+        "| C08-m10 | merge result takes its tags from the override (caught by C03 after strengthening) | C03 builds its override with other tags than the base and requires the documented inheritance (libeconf.h) |",
+        "| C09-m9, C09-m10 | a definition without value no longer replaces / resets a number (caught on arrival by C03 and C15) | new C09 scenario: number, then a value-less definition of the same key as merge override or under JOIN_SAME_ENTRIES |",
+        "| C12-m9 | history size out-parameter not reset without main file | the history entry points are handed a non-zero size variable |",
+        "| C14-m10 | comment of a continuation line copied into a buffer sized for the value line (caught on arrival by C02 and C17 under ASan) | new C14 kind: long comment after a continuation line |",
+        "| C15-m10 | repeated key in a drop-in that overrides a lower layer takes its last definition (caught on arrival by C03) | 20% of C15's JOIN files are drop-ins above a main file that defines every key |",
+        "| C16-m10 | dangling main-file link skipped before the lstat-based rules | C16's offending file is a dangling link in 20% of the cases with an offender |",
+        "| C18-m9 | umask changed and restored around fopen while a permission requirement is in force | C18 storm mode: every thread repeats write / layered read / single read / directory read thousands of times and compares each result (modes included) with the single-threaded one |",
+        "| C18-m10 | descriptor closed twice when a directory is read as a file | storm mode; sub-directories with drop-in names and directories read as files in the thread programs; the driver now runs mode drivers first and makes a second pass without fail-fast when an early failure is not confirmed |",
+        "| C20-m9 | file name copy leaks on the wrong-directory-permission path | C20 fault kind: permission requirement the directories do not satisfy |",
+        "| C20-m10 | drop-ins-only mode overwrites the object's CONFIG_DIRS strings without freeing them | C20 gives the options object a CONFIG_DIRS item in drop-ins-only mode and sends it through a failing read first |",
+        "| C04-m9 | cleanup after a failed later drop-in frees an uninitialised slot (caught on arrival by C13 and C20) | C04 reads its byte strings also as members of a layered read behind a harmless first drop-in |", "",
         "Own mutants exposed two more gaps (both closed): a shallow copy of `comment_before_key` in `cpy_file_entry` (C03 now takes a full",
         "extended dump of the merge result after both inputs were freed, parsed inputs carry comments) and `econftool` printing at most two",
         "value lines (C19's multi-line values now have 2-4 lines).", "",
